@@ -28,7 +28,9 @@ CELLS = [[4.0, 4.0, 4.0, 90, 90, 90], [2.87, 2.87, 2.87, 90, 90, 90], [3.0, 3.0,
 
 STRAINS = [np.zeros((3, 3)), np.diag([1e-3, 1e-3, 1e-3]), np.diag([-1e-3, 2e-3, 0.0]),
            np.array([[0, 2e-3, 0], [2e-3, 0, 0], [0, 0, 0.0]]),
-           np.array([[3e-3, 1e-3, -2e-3], [1e-3, -5e-3, 4e-3], [-2e-3, 4e-3, 2e-3]])]
+           np.array([[3e-3, 1e-3, -2e-3], [1e-3, -5e-3, 4e-3], [-2e-3, 4e-3, 2e-3]]),
+           # a shear of a few 1e-6: cell angles 2e-4 .. 6e-4 degrees away from where they were (an angle of 90.0003 is not 90)
+           np.array([[0, 3e-6, -5e-6], [3e-6, 0, 2e-6], [-5e-6, 2e-6, 0.0]])]
 
 
 def rotations(seed, tier="quick"):
@@ -355,6 +357,22 @@ def _run_grainhist(desc):
                 idx += 1
                 if idx % 4 != c:
                     continue
+                if not first:
+                    # whatever the grain hands out on the FIRST read after construction can be scribbled on by the caller
+                    fresh0 = gm.grain(ua.copy())
+                    for pfirst in PROPS:
+                        g0 = gm.grain(ua.copy())
+                        v = getattr(g0, pfirst)                 # the very first read of this grain
+                        if isinstance(v, np.ndarray):
+                            v[...] = 7.25
+                        v = getattr(g0, pfirst)                 # and the second one
+                        if isinstance(v, np.ndarray):
+                            v[...] = -3.5
+                        bad_p = [p for p in PROPS if not close(getattr(g0, p), getattr(fresh0, p), 1e-12)]
+                        if bad_p:
+                            sh.violation("grain.%s:changes-when-the-caller-writes-into-a-returned-array" % bad_p[0],
+                                         {"kind": "grainhist", "first_ubi": a, "second_ubi": b, "read_before_set_ubi": ["scribble on " + pfirst], "seed": seed_of()}, {})
+                            break
                 work = ua.copy()                   # the caller's array: overwritten after the grain was built / updated from it
                 g = gm.grain(work)
                 for p in first:
